@@ -481,6 +481,11 @@ type FunctionLiteral struct {
 }
 
 func (fl FunctionLiteral) lambdaPrint(out *PrintState) *PrintState {
+	// As an operand of anything that binds tighter than => the lambda needs parentheses: a + (x => x), -(x => x).
+	if out.AllParens || out.ExpressionPrecedence > LAMBDA {
+		out.Print("(")
+		defer out.Print(")")
+	}
 	needParen := len(fl.Parameters) != 1
 	if needParen {
 		out.Print("(")
